@@ -7,6 +7,20 @@ fn unhex(s: &str) -> Option<String> {
     String::from_utf8(bytes?).ok()
 }
 
+fn run_query(db: &anything::Db, q: &str) -> serde_json::Value {
+    let Ok(parsed) = anything::parse(q) else { return json!({"parse_error": 1}) };
+    let mut d = Vec::new();
+    let mut out = Vec::new();
+    for v in anything::query(&parsed, db, anything::Options::default().describe(), &mut d) {
+        match v {
+            Ok(n) => out.push(json!({"ok": [n.value.numer().to_string(), n.value.denom().to_string(), n.unit.to_string()]})),
+            Err(e) => out.push(json!({"err": e.to_string()})),
+        }
+    }
+    let desc: Vec<_> = d.into_iter().map(|x| match x { anything::Description::Constant(p, c) => json!([p.to_string(), c.description.to_string()]) }).collect();
+    json!({"q": q, "results": out, "desc": desc})
+}
+
 fn main() {
     let mode = std::env::var("DB_RUN_MODE").unwrap_or_default();
     let db = if mode == "memory" { anything::Db::in_memory() } else { anything::Db::open() };
@@ -17,18 +31,39 @@ fn main() {
             std::process::exit(3);
         }
     };
-    for arg in std::env::args().skip(1) {
-        let Some(q) = unhex(&arg) else { continue };
-        let Ok(parsed) = anything::parse(&q) else { println!("{}", json!({"parse_error": 1})); continue };
-        let mut d = Vec::new();
-        let mut out = Vec::new();
-        for v in anything::query(&parsed, &db, anything::Options::default().describe(), &mut d) {
-            match v {
-                Ok(n) => out.push(json!({"ok": [n.value.numer().to_string(), n.value.denom().to_string(), n.unit.to_string()]})),
-                Err(e) => out.push(json!({"err": e.to_string()})),
+    if std::env::args().len() == 1 {
+        // session mode: one request per line of standard input: `K <hex> <k>` (best k documents with the bit patterns of their scores)
+        // or `Q <hex>` (the query through anything::query with descriptions)
+        use std::io::BufRead;
+        let stdin = std::io::stdin();
+        for line in stdin.lock().lines() {
+            let Ok(line) = line else { break };
+            let parts: Vec<&str> = line.split_whitespace().collect();
+            match parts.as_slice() {
+                ["K", h, k] => {
+                    let Some(q) = unhex(h) else { println!("{}", json!({"bad": 1})); continue };
+                    let k: usize = k.parse().unwrap_or(1);
+                    match anything::verif::lookup_top(&db, &q, k) {
+                        Ok(v) => println!("{}", serde_json::Value::Array(v.into_iter().map(|(s, c)| match c {
+                            Some(c) => json!({"bits": s.to_bits(), "tokens": c.tokens.iter().map(|t| t.to_string()).collect::<Vec<_>>(),
+                                              "description": c.description.to_string(), "num": c.value.numer().to_string(), "den": c.value.denom().to_string(),
+                                              "unit": c.unit.to_string(), "source": c.source}),
+                            None => json!({"bits": s.to_bits(), "undecodable": 1}),
+                        }).collect())),
+                        Err(e) => println!("{}", json!({"lookup_error": e})),
+                    }
+                }
+                ["Q", h] => {
+                    let Some(q) = unhex(h) else { println!("{}", json!({"bad": 1})); continue };
+                    println!("{}", run_query(&db, &q));
+                }
+                _ => println!("{}", json!({"bad": 1})),
             }
         }
-        let desc: Vec<_> = d.into_iter().map(|x| match x { anything::Description::Constant(p, c) => json!([p.to_string(), c.description.to_string()]) }).collect();
-        println!("{}", json!({"q": q, "results": out, "desc": desc}));
+        return;
+    }
+    for arg in std::env::args().skip(1) {
+        let Some(q) = unhex(&arg) else { continue };
+        println!("{}", run_query(&db, &q));
     }
 }
